@@ -237,7 +237,8 @@ def check(prop, tier, seed, replay_of=None):
         for key, fs in sorted(bykey.items()):
             violations.append(("oracle:" + key, {"what": fs[0]["what"], "key": key, "count": len(fs),
                                                  "case_id": fs[0]["case_id"], "replay": fs[0]["replay"],
-                                                 "case": case_desc(outdir, fs[0]["case_id"])}, False))
+                                                 "case": case_desc(outdir, fs[0]["case_id"])},
+                               key == "correspondence-broken"))   # no input fails: the tie to the code no longer checks
         # model/implementation disagreements without an oracle failure on the same case
         lonely = [b for b in bad if b not in oracle_failed_cases]
         # disagreements on cases that belong to a known finding are part of that finding
